@@ -96,8 +96,10 @@ static void c01(Sink &sink, const Args &a, long c)
     const PInfo &pi = R[c % R.size()];
     long widx = c / R.size();
     // world kinds cycle; every third world has hostile inputs
-    static const int KINDS[] = {K_R2, K_SE2, K_R3, K_CMP, K_SE3, K_R2, K_DUBINS, K_R6, K_SE2, K_RS};
-    int kind = KINDS[widx % 10];
+    // planners that only build forward motions get the direction-dependent spaces in 4 of 10 worlds; the others never
+    static const int KINDS_DIR[] = {K_DUBINS, K_R2, K_RS, K_SE2, K_DUBINS, K_R3, K_CMP, K_DUBINS, K_SE3, K_R6};
+    static const int KINDS_SYM[] = {K_R2, K_SE2, K_R3, K_CMP, K_SE3, K_R2, K_SE2, K_R6, K_CMP, K_R3};
+    int kind = supports(pi, K_DUBINS) ? KINDS_DIR[widx % 10] : KINDS_SYM[widx % 10];
     if (a.get("kind") != "") kind = atoi(a.get("kind").c_str());
     bool hostile = (widx % 3) == 2;
     if (!supports(pi, kind))
@@ -127,6 +129,12 @@ static void c01(Sink &sink, const Args &a, long c)
         return;
     }
     long budget = (long)(pi.budget * (kind == K_R6 || kind == K_SE3 ? 1.5 : 1.0));
+    // every fourth world is cut short (5 .. 300 evaluations): that is where approximate solutions come from
+    if (widx % 4 == 1)
+    {
+        budget = (long)rng.logUni(5, 300);
+        sink.count("cases_with_short_budget");
+    }
     SolveResult r = solveChecked(ctx, planner, pdef, budget, !pi.optimizing);
     bool usableStart = !w->starts.empty(), usableGoal = !w->goals.empty();
     if (!usableStart || !usableGoal)
@@ -204,6 +212,17 @@ static void newQuery(World &w, Rng &rng)
     w.badStarts.clear();
     w.badGoals.clear();
     w.goalType = 0;
+    // 4 of 10 queries have several goal states at different distances (optimizing planners prune the far ones)
+    if (rng.coin(0.4))
+    {
+        w.goalType = 1;
+        int extra = 1 + (int)rng.ui(2);
+        for (int i = 0; i < extra; ++i)
+        {
+            auto g = draw(rng.coin() ? swap : !swap);
+            if (!g.empty() && g != w.starts[0]) w.goals.push_back(g);
+        }
+    }
 }
 
 static const char *OPN[] = {"solve", "solve0", "clear", "clearQuery", "newPdef", "getPlannerData", "newQuery+clear"};
@@ -218,6 +237,7 @@ static void c03History(Sink &sink, const Args &a, long c, const PInfo &pi, long 
     auto w = makeWorld(wseed, kind, false, 4);
     w->rangeMode = 0;
     Rng rng(caseSeed(a, c));
+    if (hidx % 3 == 1) newQuery(*w, rng);  // a third of the histories start with a (possibly multi-goal) drawn query
     OracleCtx ctx{sink, *w, pi, "C03", "solution-", nullptr};
     OracleCtx hctx{sink, *w, pi, "C03", "", nullptr};
     std::string hist;
